@@ -125,14 +125,30 @@ def shard(n: int):
     return (n * i) // k, (n * (i + 1)) // k
 
 
+def digits(k, radices):
+    """Mixed-radix digits of the symbolic vector index k, each realize()d separately: CrossHair's decision tree then
+    has depth sum(radices) instead of prod(radices) (measured: 2160 vectors, 2160 executions, 39 s)."""
+    from crosshair.core import realize
+    out = []
+    for r in radices:
+        out.append(realize(k % r))
+        k = k // r
+    return out
+
+
 def load_findings() -> dict:
     if FINDINGS_FILE.exists():
         return json.loads(FINDINGS_FILE.read_text())
     return {'known': [], 'fixed': []}
 
 
+import threading as _threading
+_IMPORT_LOCK = _threading.RLock()
+
+
 def _harness_line(module: str, func: str) -> tuple:
-    mod = importlib.import_module(module)
+    with _IMPORT_LOCK:
+        mod = importlib.import_module(module)
     fn = getattr(mod, func)
     file = inspect.getsourcefile(fn)
     line = inspect.getsourcelines(fn)[1] + 1  # first line inside the def
@@ -246,7 +262,8 @@ def make_twin(ob: Ob, workdir: Path) -> Optional[Ob]:
     params = ', '.join(f'{n}: {_ann(p.annotation)}' for n, p in sig.parameters.items())
     names = ', '.join(sig.parameters)
     twin_mod = f'twin_{ob.module.replace(".", "_")}_{ob.func}'
-    src = (f'from typing import *\nfrom {ob.module} import *\nimport {ob.module} as _m\n\n'
+    src = (f'from typing import *\nimport {ob.module} as _m\n'
+           f'globals().update({{k: v for k, v in vars(_m).items() if not k.startswith("__")}})\n\n'
            f'def {ob.func}__reach({params}) -> bool:\n    """\n'
            + ''.join(f'    {l}\n' for l in pres + raises)
            + f'    post: not _\n    """\n    return _m.{ob.func}({names})\n')
